@@ -542,8 +542,17 @@ def block_diagonalize(
                 return x.multiply(to_eliminate[index[0]])
             return x * to_eliminate[index[0]]
 
+        def solve_sylvester_selective(Y, index, _solve_sylvester=solve_sylvester):
+            # Nothing is eliminated inside a block without an elimination pattern
+            # (`offdiag` discards the result), and the solver need not be defined
+            # there, e.g. for the implicit block.
+            if index[0] == index[1] and index[0] not in to_keep:
+                return zero
+            return _solve_sylvester(Y, index)
+
         scope["diag"] = diag
         scope["offdiag"] = offdiag
+        scope["solve_sylvester"] = solve_sylvester_selective
     else:
         if isinstance(fully_diagonalize, dict):
             # fully_diagonalize is a dictionary with the indices of the diagonal blocks
